@@ -4,6 +4,8 @@ import re
 from mirq import callee, fmt_origin, is_self_field, origin_calls, strip_refs
 from props import c06, net
 
+THOROUGH_CONFIGS = ["default", "blocking", "websocket", "all"]
+
 EXPLANATION = (
     "R8.1: in every UDP adaptor read function each datagram-receive call (recv / try_recv / poll_recv ...) writes into storage "
     "owned by the adaptor whose static capacity is at least MAX_SIZE_PACKET (a local [u8; N], N const-evaluated), never into the "
